@@ -94,7 +94,7 @@ def time_points(K, NP, t0, dt):
     """(label, t): below range, every knot incl. t_min / t_max, interior points, above range (all dyadic)"""
     nint = NP - K
     pts = [("below", t0 - 0.75 * dt), ("below-near", t0 - 0.25 * dt), ("above", t0 + (nint + 0.5) * dt), ("far-above", t0 + (nint + 3) * dt),
-           ("far-below", t0 - 3 * dt)]
+           ("far-below", t0 - 3 * dt), ("huge-above", t0 + 2.0 ** 64 * dt), ("huge-below", t0 - 2.0 ** 64 * dt), ("huge-above-1e30", 1e30), ("huge-below-1e30", -1e30)]
     for i in range(nint + 1):
         pts.append(("knot%d" % i, t0 + i * dt))
     for i in range(nint):
